@@ -76,6 +76,12 @@ type Options struct {
 	// LogOutput receives keto's log (default: discarded). LogLevel default "fatal".
 	LogOutput io.Writer
 	LogLevel  string
+	// TapMatch, if non-empty, replaces the substring of the driver-level DSN
+	// that Server.Tap is restricted to (default: the database name, so two
+	// servers on one database see each other's statements). Two servers on the
+	// same database can get disjoint taps by spelling their DSN query options
+	// in a different order and passing the whole driver DSN here (C05 reader).
+	TapMatch string
 }
 
 // NetworkHeader is the HTTP header / gRPC metadata key carrying the network id
@@ -240,7 +246,11 @@ func NewServer(t testing.TB, o Options) *Server {
 		kopts = append(kopts, ketoctx.WithGRPCUnaryInterceptors(unary...))
 	}
 
-	tap := sqlfault.Attach(dsnKey(o.DSN))
+	tapMatch := dsnKey(o.DSN)
+	if o.TapMatch != "" {
+		tapMatch = o.TapMatch
+	}
+	tap := sqlfault.Attach(tapMatch)
 	t.Cleanup(tap.Close)
 
 	r, err := driver.NewDefaultRegistry(ctx, nil, true, kopts)
